@@ -11,6 +11,7 @@ from util import quiet, call
 
 USES_TRANSLATOR = True
 DRIVER = 'MainGen.lean'
+OWN_ALARM = True          # the termination cases set their own alarm
 REQUIRED_THEOREMS = ['Usid.C15.budget', 'Usid.C15.monotone', 'Usid.C15.cores_bounds', 'Usid.C15.recommend_bounds',
                      'Usid.C15.recommend_le_request', 'Usid.C15.recommend_total',
                      'Usid.C15.recommend_zero_request_raises', 'Usid.C15.recommend_zero_jobs_raises',
